@@ -29,7 +29,7 @@ type kernScenario struct {
 	First     int    `json:"first"`
 	Last      int    `json:"last"`
 	Silent    int    `json:"silent"`     // router whose ICMP generation is suppressed, 0 = none
-	PortState int    `json:"port_state"` // 0 open, 1 closed, 2 open but SACK disabled
+	PortState int    `json:"port_state"` // 0 open, 1 closed, 2 open but SACK disabled, 3 filtered (segments dropped by the target)
 	Parallel  int    `json:"parallel"`   // run this many copies at once
 	V6        int    `json:"v6"`         // 1: the target is the chain's IPv6 address
 }
